@@ -6,7 +6,7 @@
    id A < id B.  `_partial`: synchronous submission (fast path and waiter hand-off), the main queue and
    dispatch_async_and_wait are not in this model (see SyncWait / the stress oracle). *)
 From Coq Require Import ZArith Bool List.
-From Verif Require Import Word Conc SLane SLane_proofs SLane_progress.
+From Verif Require Import Word Conc SLane SLane_proofs SLane_progress SLane_realtime.
 Import ListNotations.
 Local Open Scope Z_scope.
 
@@ -28,3 +28,25 @@ Theorem C02_slane_fifo_partial : forall rb s k,
   0 <= rb < 2 -> reach rb s -> (k < length (started s))%nat -> nth k (rev (started s)) (-1) = Z.of_nat k.
 Proof. exact kth_started_is_k. Qed.
 Print Assumptions C02_slane_fifo_partial.
+
+(* real-time reading of FIFO (ghost history added on top of the unchanged steps, Proofs/SLane_realtime.v): `pre h b` is the
+   set of items whose dispatch_async call had RETURNED when b's call exchanged the tail (so it contains every item
+   whose submission returned before b's submission began, and every earlier submission of b's own thread).  All of them
+   are older than b ... *)
+Theorem C02_slane_realtime_order_partial : forall rb s h a b,
+  0 <= rb < 2 -> xreach rb s h -> In a (pre h b) -> a < b.
+Proof. exact realtime_order. Qed.
+Print Assumptions C02_slane_realtime_order_partial.
+(* ... hence their callouts begin earlier (and, callouts being exclusive, have ended when b's begins) *)
+Theorem C02_slane_realtime_fifo_partial : forall rb s h a b ka kb,
+  0 <= rb < 2 -> xreach rb s h -> In a (pre h b) ->
+  (ka < length (started s))%nat -> (kb < length (started s))%nat ->
+  nth ka (rev (started s)) (-1) = a -> nth kb (rev (started s)) (-1) = b -> (ka < kb)%nat.
+Proof. exact realtime_fifo. Qed.
+Print Assumptions C02_slane_realtime_fifo_partial.
+(* the ghost `pre` of an item is exactly the set of returned calls at its tail exchange *)
+Theorem C02_slane_pre_is_returned_partial : forall rb s h t q s',
+  xreach rb s h -> valid_tid t -> pcs s t = PA_xchg q -> gstep s t = Some s' ->
+  pre (hstep s (AStep t) s' h) (nextid s) = returned h.
+Proof. exact returned_is_recorded. Qed.
+Print Assumptions C02_slane_pre_is_returned_partial.
